@@ -24,6 +24,11 @@ func runC01(c *Ctx) {
 	c01PayloadImmutability(c)
 	c01ParseCapture(c)
 	ruleFormatTaint(c, "format-taint")
+	// what is stored in the message must not alias the receive buffers, and decoded components must be kept
+	// byte-identical (rules shared with C10/C11 and C14)
+	ruleBorrow(c, "borrow-lifetime")
+	c10CopyOut(c)
+	rulePureCapture(c, "pure-capture")
 }
 
 func c01Funnel(c *Ctx) {
